@@ -225,16 +225,15 @@ func NIA1(ik [16]byte, countI uint32, bearer byte, direction uint32, msg []byte,
 	P := (uint64(z[0]) << 32) | uint64(z[1])
 	Q := (uint64(z[2]) << 32) | uint64(z[3])
 
+	// M_0 .. M_{D-2}: the message in 64-bit blocks, the last one zero padded;
+	// an empty message has no block at all (D = 1).
 	var Eval uint64 = 0
-	for i := uint64(0); i < D-2; i++ {
-		M := binary.BigEndian.Uint64(msg[8*i:])
+	for i := uint64(0); i+1 < D; i++ {
+		var blk [8]byte
+		copy(blk[:], msg[8*i:])
+		M := binary.BigEndian.Uint64(blk[:])
 		Eval = mul(Eval^M, P, 0x000000000000001b)
 	}
-
-	tmp := make([]byte, 8)
-	copy(tmp, msg[8*(D-2):])
-	M := binary.BigEndian.Uint64(tmp)
-	Eval = mul(Eval^M, P, 0x000000000000001b)
 
 	Eval = Eval ^ length
 	Eval = mul(Eval, Q, 0x000000000000001b)
